@@ -28,7 +28,7 @@ for w in ("Inter", "Union", "Diff"):
             for j in range(nb):
                 for k in range(3):
                     nm = "set_%s_%d_%d_at_%d_%d_%s" % (w.lower(), na, nb, i, j, ORD[k])
-                    out.append('    //@harness props=C17,C01 quickfor=C17 strength=bounded%s bound="ONE execution: sets of %d and %d elements, positions (%d, %d), comparison outcome %s (the instances of this family enumerate every position and outcome for these sizes)" clause="%s" timeout=300' % (tier, na, nb, i, j, ORD[k], CL[w]))
+                    out.append('    //@harness props=C17,C01 quickfor=C17 strength=bounded%s bound="ONE execution: sets of %d and %d elements, positions (%d, %d), comparison outcome %s (the instances of this family enumerate every position and outcome for these sizes)" clause="%s" timeout=300 replay=sort_stable' % (tier, na, nb, i, j, ORD[k], CL[w]))
                     out.append("    #[kani::proof]\n    #[kani::unwind(8)]\n    fn %s() { two_pointer_at(W::%s, %d, %d, %d, %d, ord_of(%d)); }" % (nm, w, na, nb, i, j, k))
 region("two_pointer", "\n".join(out) + "\n")
 
@@ -43,7 +43,7 @@ for (ln, starts, quick_codes) in ((2, (0, 5), None), (3, (1,), None), (4, (2,), 
             for _ in range(ln - 1):
                 digs.append(ORD[c % 3]); c //= 3
             nm = "quick_sort_2_len%d_at%d_code%d" % (ln, st, code)
-            out.append('    //@harness props=C17,C01 quickfor=C17 strength=bounded%s bound="ONE execution: window of %d positions at offset %d of a 7-element index vector, comparison outcomes (%s) (the instances of this family enumerate every outcome vector for this window)" clause="%s" timeout=300' % (tier, ln, st, ", ".join(digs), CLQ))
+            out.append('    //@harness props=C17,C01 quickfor=C17 strength=bounded%s bound="ONE execution: window of %d positions at offset %d of a 7-element index vector, comparison outcomes (%s) (the instances of this family enumerate every outcome vector for this window)" clause="%s" timeout=300 replay=sort_stable' % (tier, ln, st, ", ".join(digs), CLQ))
             out.append("    #[kani::proof]\n    #[kani::unwind(9)]\n    fn %s() { quick_sort_2_at(%d, %d, %d); }" % (nm, st, ln, code))
 region("quick_sort_2", "\n".join(out) + "\n")
 
@@ -55,7 +55,7 @@ for (nl, nr) in ((2, 2), (1, 3), (3, 1), (3, 3), (1, 1), (2, 3), (3, 2), (1, 2),
     for li in range(nl + 1):
         for ri in range(nr + 1):
             nm = "merge_pre_%d_%d_at_%d_%d" % (nl, nr, li, ri)
-            out.append('    //@harness props=C17,C01 quickfor=C17 strength=bounded%s bound="ONE execution: runs of %d and %d elements, progress (%d, %d) (the instances of this family enumerate every progress pair for these run lengths)" clause="%s" timeout=300' % (tier, nl, nr, li, ri, CLM))
+            out.append('    //@harness props=C17,C01 quickfor=C17 strength=bounded%s bound="ONE execution: runs of %d and %d elements, progress (%d, %d) (the instances of this family enumerate every progress pair for these run lengths)" clause="%s" timeout=300 replay=sort_stable' % (tier, nl, nr, li, ri, CLM))
             out.append("    #[kani::proof]\n    #[kani::unwind(9)]\n    fn %s() { merge_pre_at(%d, %d, %d, %d); }" % (nm, nl, nr, li, ri))
 region("merge_pre", "\n".join(out) + "\n")
 open(p, "w").write(s)
